@@ -240,6 +240,15 @@ def enumerate_cells(tier, seed):
                         lc.append(S.reg('TextSkyRegion' if dom == 'sky' else 'TextPixelRegion',
                                         center=(S.sky(10.0 + k, 20.0, 'icrs') if dom == 'sky' else S.pix(3.0 + k, 4.0)), text=txt))
                 emit(fmt, 'Regions', lc, kw, 'good-linechars')
+                # ... and the formats' own comment / separator characters inside quoted values ('#' in a label, a hex colour)
+                cc = [json.loads(json.dumps(r)) for r in regs]
+                for k, txt in enumerate(['src #1', 'No. #3; next', '# leading']):
+                    if fmt == 'ds9':
+                        cc.append(S.reg('TextPixelRegion', center=S.pix(3.0 + k, 4.0), text=txt, visual={'color': '#ff0000'}))
+                    else:
+                        cc.append(S.reg('TextSkyRegion' if dom == 'sky' else 'TextPixelRegion', visual={'color': '#ff0000'}, meta={'label': txt},
+                                        center=(S.sky(10.0 + k, 20.0, 'icrs') if dom == 'sky' else S.pix(3.0 + k, 4.0)), text=txt))
+                emit(fmt, 'Regions', cc, kw, 'good-commentchars')
                 # an empty list is a valid list: it writes (a possibly empty file) and reads back as an empty list
                 emit(fmt, 'Regions', [], kw, 'good-empty')
         for _ in range(1 if simple else 8):            # Region.write
